@@ -150,6 +150,19 @@ func Const(w int, v uint64) *Term {
 		panic(fmt.Sprintf("term.Const: bad width %d", w))
 	}
 	v &= mask(w)
+	if v < smallConstN {
+		tab := smallConst[w]
+		if tab == nil {
+			tab = make([]*Term, smallConstN)
+			smallConst[w] = tab
+		}
+		if t := tab[v]; t != nil {
+			return t
+		}
+		t := intern(&Term{K: KConst, W: w, Val: v})
+		tab[v] = t
+		return t
+	}
 	if v < internConstBelow || w <= 16 || v == mask(w) {
 		return intern(&Term{K: KConst, W: w, Val: v})
 	}
@@ -161,6 +174,9 @@ func Const(w int, v uint64) *Term {
 }
 
 const internConstBelow = 1 << 16
+const smallConstN = 4096
+
+var smallConst [65][]*Term
 
 // Same reports syntactic identity, looking through non-interned constants.
 func Same(a, b *Term) bool {
